@@ -249,20 +249,25 @@ def linkViewS (v : List (Option (Nat × Nat × Text))) : Text :=
     | none => T "-"
     | some (k, n, d) => sepJoin (T ":") [natS k, natS n, natS d.length, hex d])
 
-def runHL (c : Cfg) : List String → FS → List Text → List Text
-  | [], _, acc => acc.reverse
-  | tok :: rest, fs, acc =>
+/-- `disk = true`: the disk view comes from the `Disk` model driven by the calls `DirFS` makes (Impl);
+`false`: from the link structure of the reference file system (Spec) -/
+def runHL (c : Cfg) (disk : Bool) : List String → FS → Disk → List Text → List Text
+  | [], _, _, acc => acc.reverse
+  | tok :: rest, fs, d, acc =>
     match tok.splitOn "," with
-    | ["hl", ns] => runHL c rest fs (linkViewS (linkView c fs ((ns.splitOn "+").map ux)) :: acc)
+    | ["hl", ns] =>
+      let names := (ns.splitOn "+").map ux
+      runHL c disk rest fs d (linkViewS (if disk then d.view names else linkView c fs names) :: acc)
     | _ =>
       match parseOp tok with
-      | none => runHL c rest fs (T "bad-op" :: acc)
+      | none => runHL c disk rest fs d (T "bad-op" :: acc)
       | some op =>
         let (fs1, o) := step c fs op
-        runHL c rest fs1 (projOut o :: acc)
+        let okB := match o with | .ok _ => true | _ => false
+        runHL c disk rest fs1 (d.apply op okB) (projOut o :: acc)
 
-def runHLCase (c : Cfg) (toks : List String) : String :=
-  String.ofList (sepJoin (T ";") (runHL c toks FS.empty []))
+def runHLCase (c : Cfg) (disk : Bool) (toks : List String) : String :=
+  String.ofList (sepJoin (T ";") (runHL c disk toks FS.empty {} []))
 
 def pathReply (t : Text) : Option String :=
   let s := hexS t
@@ -286,8 +291,8 @@ def handle (args : List String) : Option String :=
       some (impl ++ "\t" ++ spec ++ "\t-")
   | "fs.dirhl" :: toks =>
     -- DirFS inside its envelope is the model's memfs with the content on disk
-    let impl := runHLCase (Cfg.impl .memfs) toks
-    let spec := runHLCase (Cfg.spec .memfs) toks
+    let impl := runHLCase (Cfg.impl .memfs) true toks
+    let spec := runHLCase (Cfg.spec .memfs) false toks
     some (impl ++ "\t" ++ spec ++ "\t" ++ (if impl = spec then "-" else "unlisted"))
   | ["fs.dirfs", op, why, res] =>
     -- DirFS is judged by the harness-side oracles; the class of a failed verdict is decided here
